@@ -13,7 +13,7 @@ cd /verif
 for pid in "$@"; do
   out=$(./vf check $pid --tier ${TIER:-quick} 2>&1 | grep -v conda)
   rc=$?
-  echo "$out" | grep -E "^(VIOLATION|OK|FAIL|BROKEN)" | head -${LINES_SHOWN:-4}
-  echo "$out" | grep -E "^  signature" | head -3
+  echo "$out" | grep -a -E "^(VIOLATION|OK|FAIL|BROKEN)" | head -${LINES_SHOWN:-4}
+  echo "$out" | grep -a -E "^  signature" | head -3
 done
 git -C /repo checkout -- .
